@@ -26,6 +26,32 @@ CLAIMED = {
         note=CORR + "Partial: producer/consumer timing of the real runtime is sampled; the schedule-quantified statement is about "
              "the sequential stage function.", design="5/C02",
         technique="Coq proof (invariant by induction) + extracted-model correspondence"),
+    "C06": dict(
+        text="Theorem C06_true_time (axiom-free), a corollary of C17_any_start: for every start time T and every admissible "
+             "history (any interleaving of GPS/Galileo/GLONASS/BeiDou MSM4/MSM7 frames, non-decreasing whole-millisecond "
+             "observation instants less than six days apart, illegal timestamps inserted anywhere) fed through the model's public "
+             "GetMessage on frames built by the specification encoder, every reported UTC instant and start of week equals the "
+             "true one (week starts defined independently by a Sunday floor), across any number of rollovers; illegal timestamps "
+             "give an error and change nothing. Correspondence: ~1500 generated histories per run through the real GetMessage and "
+             "HandleMessages, start times within seconds of each rollover, several time zones, judged against the true instants.",
+        note=CORR + "time.Time arithmetic (Add, AddDate in UTC, Weekday) is modelled by integer nanoseconds; Format/Parse of the "
+             "display strings is not modelled (the harness parses them back); no leap seconds, as in Go.", design="5/C06",
+        technique="Coq proof (per-constellation invariant, rollover arithmetic by lia/nia) + history correspondence"),
+    "C15": dict(
+        text="Theorem C15_state_independent (axiom-free): what the model's GetMessage reports about a frame apart from the two time "
+             "values is the same for every handler state; the decoders do not take the handler at all (by type). The heap-level "
+             "half (hidden caches, aliasing, races) is carried by the harness: batches of frames decoded fresh / after others / by "
+             "2-8 handlers in parallel goroutines / as fanned-out copies with a scribbling consumer, display repeated three times, "
+             "all under the race detector, and every frame's decoded view compared with the state-free model.",
+        note=CORR + "Partial: aliasing, package-level caches and data races are facts about the Go heap that an immutable functional "
+             "model cannot express; they are sampled under -race.", design="5/C15",
+        technique="Coq proof (state independence of the model) + race-detector differential runs"),
+    "C17": dict(
+        text="Theorem C17_any_start (axiom-free): as C06 but the start time may lie anywhere in the constellation week of the first "
+             "observation, before or after it. Correspondence as C06 with first observations at the week start, at its end and "
+             "within 2 s of the start time.",
+        note=CORR + "Same modelling of time as C06.", design="5/C17",
+        technique="Coq proof (per-constellation invariant) + history correspondence"),
     "C07": dict(
         text="Theorems C07_stream, C07_single (axiom-free): the modelled stream handler and GetMessage return normally (never Panic, "
              "fuel S(length input) suffices) for arbitrary bytes. The harness runs every CRC-valid frame of the 16 decodable types "
